@@ -75,7 +75,12 @@ class SocketSpawn(SpawnBase):
             return
 
         self.flush()
-        self.socket.shutdown(socket.SHUT_RDWR)
+        try:
+            self.socket.shutdown(socket.SHUT_RDWR)
+        except OSError:
+            # Not connected any more (e.g. reset by the peer): there is
+            # nothing to shut down, but the descriptor must still be released.
+            pass
         self.socket.close()
         self.child_fd = -1
         self.closed = True
